@@ -115,7 +115,7 @@ pub fn check_graph(item: u64, g: &GraphSpec, desc: &str, sig: &[Vec<isize>], acc
         acc.distinct.insert(gen::graph_key(g));
     }
     acc.set("E_values", format!("{:02}", ne));
-    if item < 3 {
+    if acc.samples.is_empty() {
         acc.sample(json!({"graph": g.describe(), "generator": desc, "J_full_exact": jx[full].to_string(), "J_full_table": tv.j[full], "cached_factor": tv.cached_factor}));
     }
     if !bad.is_empty() {
